@@ -655,9 +655,9 @@ class C14(Check):
                    ("main", "EolInv", "recognizers_eol_invariant"), ("main", "EolInv", "recognizers_eolRun_invariant"),
                    ("main", "BlankPrefix", "parseBlocks_blank_prefix_partial"), ("main", "BlankPrefix", "skipLoop_blank_prefix_partial"),
                    ("main", "BlankPrefix", "parseBlocks_blank_prefix_of_total"), ("main", "Uncond", "parseBlocks_blank_prefix"),
-                   ("main", "EolCRFull", "parseFull_cr"), ("main", "EolCRRender", "renderDoc_cr"), ("main", "EolCRRender", "renderDoc_cr_norm"), ("main", "EolCRRender", "renderDoc_cr_safe"), ("main", "EolCRRenderTree", "destOK"), ("main", "EolCR", "parseBlocks_cr"), ("main", "EolFinalGenMain", "parseBlocks_final_newline"), ("main", "EolCRLFGen", "parseBlocks_crlf_limit"), ("main", "EolCRLFGen", "parseBlocks_crlf_statement_false"), ("main", "EolCRLFSim", "parseBlocks_crlf_nobracket"), ("main", "EolFinalSimMain", "parseBlocks_final_newline_nobracket"), ("main", "EolCRLFSimLine", "CQ_processLine"), ("main", "EolRefuted", "final_newline_unrestricted_refuted"), ("main", "EolRefuted", "crlf_unrestricted_refuted")]
+                   ("main", "EolFinalFullHbInk", "parseFull_final_newline"), ("main", "EolFinalRender", "renderDoc_final_newline"), ("main", "EolFinalRender", "renderDoc_final_newline_safe"), ("main", "EolFinalRender", "renderDoc_final_newline_delLF"), ("main", "EolCRLFFull", "parseFull_crlf_limit"), ("main", "EolCRLFRender", "renderDoc_crlf"), ("main", "EolCRLFRender", "renderDoc_crlf_delCR"), ("main", "EolCRFull", "parseFull_cr"), ("main", "EolCRRender", "renderDoc_cr"), ("main", "EolCRRender", "renderDoc_cr_norm"), ("main", "EolCRRender", "renderDoc_cr_safe"), ("main", "EolCRRenderTree", "destOK"), ("main", "EolCR", "parseBlocks_cr"), ("main", "EolFinalGenMain", "parseBlocks_final_newline"), ("main", "EolCRLFGen", "parseBlocks_crlf_limit"), ("main", "EolCRLFGen", "parseBlocks_crlf_statement_false"), ("main", "EolCRLFSim", "parseBlocks_crlf_nobracket"), ("main", "EolFinalSimMain", "parseBlocks_final_newline_nobracket"), ("main", "EolCRLFSimLine", "CQ_processLine"), ("main", "EolRefuted", "final_newline_unrestricted_refuted"), ("main", "EolRefuted", "crlf_unrestricted_refuted")]
     slow_files = ["EolFinal", "EolCRLF", "EolStruct"]
-    assumptions = ["partial: the padding clause is proved on the concrete block machine (parseBlocks_blank_prefix_partial: parseBlocks (B ++ s) = shifted parseBlocks s for blank-line prefixes B, under the side condition that a CR ending B does not fuse with an LF starting s ; Uncond.parseBlocks_blank_prefix is the statement without any fuel condition, by the totality theorem of the block layer) and for any block machine (nb_shift); all five recognizers are proved independent of the line-ending style and of its presence (recognizers_eol_invariant, any run of CR/LF bytes); the CR clause is proved through the WHOLE pipeline for every input without CR: parseFull (cr s) = parseFull s with only the Source bytes mapped (EolCRFull.parseFull_cr: trees after the inline pass, spans, kinds and normalised labels literally equal) and the rendered HTML of cr s equals that of s byte for byte except that some LF are CR (EolCRRender.renderDoc_cr, every configuration; renderDoc_cr_norm / renderDoc_cr_safe: equal after mapping CR to LF) — this is the property's first clause for CR as stated; it needed the fact, proved for every input (destOK), that link destinations and autolinks contain no line ending, because normalizeURI would encode LF and CR differently; at the block layer (EolCR.parseBlocks_cr: replacing LF by CR changes nothing but the Source bytes: trees, offsets, lines and normalised labels are literally equal); the final-newline clause is proved at the block layer for EVERY input (EolFinalGenMain.parseBlocks_final_newline: appending LF to a non-empty input that ends neither in a line ending nor in '>' changes only the last root, exactly by the relation finRoots; the '>' exclusion is the contains off-by-one, see DESIGN 12.11c); the CRLF clause is proved for every input without CR whose length keeps every label scan below the 999-step limit in both runs (EolCRLFGen.parseBlocks_crlf_limit: 2 * len (crlf (pad s)) + 9 < 999) and for every input of any length that contains no '[' (parseBlocks_crlf_nobracket); the statement with the bound len (crlf s) < 999 is false (parseBlocks_crlf_statement_false: the limit counts reader steps, and a partly consumed tab costs up to four steps for one byte: a 916-byte witness, same family as finding D24); earlier, weaker forms: (EolCRLFSim.parseBlocks_crlf_nobracket: parseBlocks (crlf s) is the image of parseBlocks s under the position map p + number of LF before p, Sources mapped; EolFinalSimMain.parseBlocks_final_newline_nobracket: appending LF to an input that does not end in a line ending nor in '>' changes only the last root, exactly by the relation finRoots: per-line simulations for every block kind, EOF step, stream layer); '[' is excluded because the link-reference-definition reader would need a two-run commutation with fuel independence and, for CRLF, the 999-character limit (finding D24): with '[' the clauses are decided by the correspondence on the variants plus the oracle; for all inputs the exact tree relations are executable checkers (EolFinalDefs, EolCRLFDefs), each refuted without a restriction (EolRefuted: ' <?>' changes the tree but not the safe rendering; a 996-byte label with three line endings is finding D24) and, restricted, proved only for all inputs of length <= 5 over four alphabets and for 65 640 documents of 1-3 lines (coq/slow, compiled in the thorough tier): the unbounded simulation for those two clauses is still open; correspondence on the variants plus the oracle decide them"]
+    assumptions = ["partial: the padding clause is proved on the concrete block machine (parseBlocks_blank_prefix_partial: parseBlocks (B ++ s) = shifted parseBlocks s for blank-line prefixes B, under the side condition that a CR ending B does not fuse with an LF starting s ; Uncond.parseBlocks_blank_prefix is the statement without any fuel condition, by the totality theorem of the block layer) and for any block machine (nb_shift); all five recognizers are proved independent of the line-ending style and of its presence (recognizers_eol_invariant, any run of CR/LF bytes); the CR clause is proved through the WHOLE pipeline for every input without CR: parseFull (cr s) = parseFull s with only the Source bytes mapped (EolCRFull.parseFull_cr: trees after the inline pass, spans, kinds and normalised labels literally equal) and the rendered HTML of cr s equals that of s byte for byte except that some LF are CR (EolCRRender.renderDoc_cr, every configuration; renderDoc_cr_norm / renderDoc_cr_safe: equal after mapping CR to LF) — this is the property's first clause for CR as stated; it needed the fact, proved for every input (destOK), that link destinations and autolinks contain no line ending, because normalizeURI would encode LF and CR differently; at the block layer (EolCR.parseBlocks_cr: replacing LF by CR changes nothing but the Source bytes: trees, offsets, lines and normalised labels are literally equal); the final-newline clause is proved through the WHOLE pipeline for every non-empty input that ends neither in a line ending nor in '>': parseFull (s ++ LF) is the image finFullRoots of parseFull s (EolFinalFullHbInk.parseFull_final_newline: only the last root changes; inline forests unchanged except that a paragraph ending in two spaces has its last Text node one byte longer) and the rendering of s ++ LF is the rendering of s with LF bytes inserted (renderDoc_final_newline, every configuration); in safe mode with soft breaks preserved the two renderings are EQUAL unless the input ends in two spaces, and equal after deleting LF always (renderDoc_final_newline_safe, _delLF); the naive forms are refuted with witnesses ('a' + two spaces; an unterminated code block under the other soft-break modes); the CRLF clause is proved through the whole pipeline under the label-limit condition (EolCRLFFull.parseFull_crlf_limit; EolCRLFRender.renderDoc_crlf: the rendering of crlf s is the rendering of s with CR inserted before some LF; equal after deleting CR); at the block layer the final-newline clause is proved for EVERY input (EolFinalGenMain.parseBlocks_final_newline: appending LF to a non-empty input that ends neither in a line ending nor in '>' changes only the last root, exactly by the relation finRoots; the '>' exclusion is the contains off-by-one, see DESIGN 12.11c); the CRLF clause is proved for every input without CR whose length keeps every label scan below the 999-step limit in both runs (EolCRLFGen.parseBlocks_crlf_limit: 2 * len (crlf (pad s)) + 9 < 999) and for every input of any length that contains no '[' (parseBlocks_crlf_nobracket); the statement with the bound len (crlf s) < 999 is false (parseBlocks_crlf_statement_false: the limit counts reader steps, and a partly consumed tab costs up to four steps for one byte: a 916-byte witness, same family as finding D24); earlier, weaker forms: (EolCRLFSim.parseBlocks_crlf_nobracket: parseBlocks (crlf s) is the image of parseBlocks s under the position map p + number of LF before p, Sources mapped; EolFinalSimMain.parseBlocks_final_newline_nobracket: appending LF to an input that does not end in a line ending nor in '>' changes only the last root, exactly by the relation finRoots: per-line simulations for every block kind, EOF step, stream layer); '[' is excluded because the link-reference-definition reader would need a two-run commutation with fuel independence and, for CRLF, the 999-character limit (finding D24): with '[' the clauses are decided by the correspondence on the variants plus the oracle; for all inputs the exact tree relations are executable checkers (EolFinalDefs, EolCRLFDefs), each refuted without a restriction (EolRefuted: ' <?>' changes the tree but not the safe rendering; a 996-byte label with three line endings is finding D24) and, restricted, proved only for all inputs of length <= 5 over four alphabets and for 65 640 documents of 1-3 lines (coq/slow, compiled in the thorough tier): the unbounded simulation for those two clauses is still open; correspondence on the variants plus the oracle decide them"]
 
     def jobs(self, seed, tier):
         base = nocr_docs(seed, tier, 1200, 50000)
